@@ -476,10 +476,10 @@ def run(c):
     ]
     c.prove()
     t0 = time.time()
-    n = c.n(60, 400)
+    n = c.n(60, 900)
     run_stream(c, n, solver="highs", orders=(1,))
-    run_stream(c, c.n(15, 80), mode="default", solver="ipopt", orders=(1, 2, 2), allow_critical=False)
-    run_stream(c, c.n(12, 60), solver="highs", orders=(1, 2, 3), linearize=True)
+    run_stream(c, c.n(15, 160), mode="default", solver="ipopt", orders=(1, 2, 2), allow_critical=False)
+    run_stream(c, c.n(12, 120), solver="highs", orders=(1, 2, 3), linearize=True)
     probe_F14(c)
     c.notes.append(
         "optimality is decided per instance (certificate + independent solve), not for all inputs at once: a solver "
